@@ -5,10 +5,10 @@ import (
 	"encoding/json"
 	"fmt"
 	"os"
-	"runtime"
 	"runtime/debug"
 	"sync"
 	"sync/atomic"
+	"syscall"
 	"time"
 
 	"verif/sim/core"
@@ -55,6 +55,11 @@ func workerMain() {
 		os.Stderr = devnull // mkdb's scanner prints lexical errors there; runtime fatals still go to fd 2
 	}
 	debug.SetMaxStack(48 << 20)
+	// an allocation sized by a garbage length field must die at once, inside
+	// the step that made it (the coordinator classifies the death from the
+	// runtime's "out of memory" message and the journaled step)
+	lim := syscall.Rlimit{Cur: 3 << 30, Max: 3 << 30}
+	syscall.Setrlimit(syscall.RLIMIT_AS, &lim)
 	debug.SetGCPercent(200)
 	scratch := os.Getenv("SIM_SCRATCH")
 	if scratch == "" {
@@ -82,12 +87,6 @@ func workerMain() {
 				stuck = 0
 			}
 			last = p
-			var ms runtime.MemStats
-			runtime.ReadMemStats(&ms)
-			if ms.HeapAlloc > 3<<30 {
-				send(out, &Msg{ID: int(atomic.LoadInt64(&curJob)), OOM: curKey.Load().(string)})
-				os.Exit(4)
-			}
 			if stuck >= 6 {
 				send(out, &Msg{ID: int(atomic.LoadInt64(&curJob)), Hang: curKey.Load().(string)})
 				os.Exit(3)
